@@ -15,9 +15,9 @@ bit length); `DbOK kf db` — the nodes of the old level left to right (`NodeOK`
 `1 ≤ prefix_compressed ≤ n`, compressed keys share the prefix, stored lengths as `BranchNodeBuilder::push` writes them;
 index separators ascend, keys of a node between its separator and the next one); `ChOK lo cs` — the ascending change list
 (keys in `[lo, 2^256)`, `Some(pn)` / `None`); `KFOK kf` — what the proofs ask of `prefix_len` / `separator_len`
-(`kfReal_ok`: the real ones satisfy it); `kf.canon` — `false`: the code as it is, `true`: with the repair of finding F22
-suggested in `notes/Q12_F22_suggested_fix.diff` (a first separator shorter than the base's prefix is never kept as part
-of a chunk; the mirror with the flag agrees with the code with the patch on 6·10⁵ differential lines); `runWorker` — `BranchUpdater::new`, `reset_base` to the node covering the next
+(`kfReal_ok`: the real ones satisfy it; `kfReal` = the code; `kfPreF22` = the code before the repair of finding F22,
+commit `d4be933`: a first separator shorter than the base's prefix could be kept as part of a chunk — it satisfies `KFOK`
+too, so the theorems stated for every `kf` hold for both); `runWorker` — `BranchUpdater::new`, `reset_base` to the node covering the next
 key, `ingest` while in scope, `digest` otherwise, `reset_base` to the next node on `NeedsMerge`, `digest` until
 `Finished`; `none` = a panic site was reached.
 -/
@@ -26,7 +26,7 @@ open Nomt Nomt.BranchUpd
 open Nomt.LeafUpd (Entry Sorted applyAll applyAll_sorted toKV toW encBits encBits_orderEmb map_applyAll)
 
 /-- **T1.branch_update_total** — on a well-formed level and an ascending change list the branch stage reaches no panic
-site (as the code has it, `kf.canon = false`, and repaired): no index out of range in `find_key_pos` / `keep_up_to` /
+site (for the code and for the code before the repair of F22): no index out of range in `find_key_pos` / `keep_up_to` /
 `push_chunk` / `try_split_keep_chunk` / `extract_insert_from_keep_chunk` / `replace_with_insert`, no `unwrap` on
 `None` (`base`, `cutoff`), `assert!(self.valid_gauge)` and `assert!(self.prefix_compressed.is_none())` hold, none of the
 subtractions of `compressed_separator_range_size` / `uncompressed_separator_range_size` / the chunk sums underflows, the
@@ -73,20 +73,34 @@ theorem T1_branch_update_is_kvApply (db : List DbNode) (cs : List (Nat × Option
 /-- **T1.branch_sizes_bounded** — every node handed to `handle_new_branch` during the whole stage is non-empty, its
 separator is its first key, `1 ≤ prefix_compressed ≤ n`, and the bytes its encoding occupies (`2n + ⌈(prefix_len + stored
 separator bits) / 8⌉ + 4n`) are at least `BRANCH_MERGE_THRESHOLD` unless it was handed the cutoff `None` (the rightmost
-node of the level); with `kf.canon` they are at most `BRANCH_NODE_BODY_SIZE` (separators and node pointers do not
-overlap in the page).  Without `kf.canon` — the code as it is — the upper bound is false: `T1_F22_overfull_counterexample`. -/
-theorem T1_branch_sizes_bounded (kf : KF) (hkf : KFOK kf) (db : List DbNode) (cs : List (Nat × Option Nat)) (lo : Nat)
+node of the level) and at most `BRANCH_NODE_BODY_SIZE` (separators and node pointers do not overlap in the page).
+Stated for the code (`kfReal`); before the repair of F22 the upper bound was false: `T1_F22_overfull_counterexample`. -/
+theorem T1_branch_sizes_bounded (db : List DbNode) (cs : List (Nat × Option Nat)) (lo : Nat)
+    (hdb : DbOK kfReal db) (hcs : ChOK lo cs) (hfirst : ∀ l, db.head? = some l → l.sep ≤ lo) :
+    ∃ out rel, runWorker kfReal db cs = some (out, rel) ∧
+      ∀ p, OutNode.new p ∈ out →
+        p.node.items ≠ [] ∧ p.node.items.head?.map (·.key) = some p.sep ∧
+          (1 ≤ p.node.pc ∧ p.node.pc ≤ p.node.items.length) ∧ (MERGE ≤ p.node.body ∨ p.cutoff = none) ∧
+          p.node.body ≤ BODY := by
+  obtain ⟨out, rel, e, _, h, _⟩ := runWorker_spec kfReal_ok db cs lo hdb hcs hfirst
+  refine ⟨out, rel, e, ?_⟩
+  intro p hp
+  have g := h p hp
+  exact ⟨g.ne, g.sep, g.pc, g.lower, g.upper kfReal_canon⟩
+
+/-- the lower bounds hold for every `kf` with `KFOK` — also for the code before the repair of F22, whose produced nodes
+can only be LARGER than the gauge counted -/
+theorem T1_branch_sizes_lower (kf : KF) (hkf : KFOK kf) (db : List DbNode) (cs : List (Nat × Option Nat)) (lo : Nat)
     (hdb : DbOK kf db) (hcs : ChOK lo cs) (hfirst : ∀ l, db.head? = some l → l.sep ≤ lo) :
     ∃ out rel, runWorker kf db cs = some (out, rel) ∧
       ∀ p, OutNode.new p ∈ out →
         p.node.items ≠ [] ∧ p.node.items.head?.map (·.key) = some p.sep ∧
-          (1 ≤ p.node.pc ∧ p.node.pc ≤ p.node.items.length) ∧ (MERGE ≤ p.node.body ∨ p.cutoff = none) ∧
-          (kf.canon = true → p.node.body ≤ BODY) := by
+          (1 ≤ p.node.pc ∧ p.node.pc ≤ p.node.items.length) ∧ (MERGE ≤ p.node.body ∨ p.cutoff = none) := by
   obtain ⟨out, rel, e, _, h, _⟩ := runWorker_spec hkf db cs lo hdb hcs hfirst
   refine ⟨out, rel, e, ?_⟩
   intro p hp
   have g := h p hp
-  exact ⟨g.ne, g.sep, g.pc, g.lower, g.upper⟩
+  exact ⟨g.ne, g.sep, g.pc, g.lower⟩
 
 /-- **T1.branch_separators_chain** — in the new level (untouched old nodes and produced nodes, left to right) the
 separators are correct bounds between the nodes: every node's separator is at most each of its keys, and every key of a
@@ -127,23 +141,24 @@ theorem T1_const_branch_thresholds :
 
 /-! ## the theorems are sharp: three kernel-checked counterexamples -/
 
-/-- **F22, kernel-checked** — the code as it is (`kf.canon = false`): a well-formed level of one node (the all-zero key
+/-- **F22, kernel-checked** — the code before the repair `d4be933` (`kfPreF22`): a well-formed level of one node (the all-zero key
 in front of the small integers 1 … 120: prefix 249 bits, the first separator is stored with 0 bits), one inserted key
 that shares 33 bits with them.  The node is rebuilt from a kept chunk under the prefix of 33 bits; the gauge counted
 `1 - 33 = 0` bits for the first separator, `push_chunk` stores `0 + (249 - 33)` bits: the stage ends without a panic and
 hands `handle_new_branch` a node whose encoding needs 4094 > 4086 = `BRANCH_NODE_BODY_SIZE` bytes (in the real page the
-separators overwrite the first node pointers).  `T1_branch_sizes_bounded` needs `kf.canon`. -/
+separators overwrite the first node pointers).  `T1_branch_sizes_bounded` is false for `kfPreF22`. -/
 theorem T1_F22_overfull_counterexample :
-    DbOK kfReal (f20Db 120) ∧ ChOK 0 [(f20Outsider, some 5)] ∧ (∀ l, (f20Db 120).head? = some l → l.sep ≤ 0) ∧
-      (runWorker kfReal (f20Db 120) [(f20Outsider, some 5)]).map
+    KFOK kfPreF22 ∧ DbOK kfPreF22 (f22Db 120) ∧ ChOK 0 [(f22Outsider, some 5)] ∧
+      (∀ l, (f22Db 120).head? = some l → l.sep ≤ 0) ∧
+      (runWorker kfPreF22 (f22Db 120) [(f22Outsider, some 5)]).map
         (fun r => r.1.map fun o => match o with | .new p => (p.node.items.length, p.node.pl, p.node.body) | .old _ => (0, 0, 0)) =
       some [(122, 33, 4094)] ∧ BODY = 4086 := by
+  refine ⟨kfPreF22_ok, ?_⟩
   decide +kernel
 
-/-- with the suggested repair (`kf.canon = true`: the short first separator becomes an `Insert`) the same input gives a
-node of 4067 bytes -/
+/-- the code (`kfReal`: the short first separator becomes an `Insert`) gives a node of 4067 bytes on the same input -/
 example :
-    (runWorker { kfReal with canon := true } (f20Db 120) [(f20Outsider, some 5)]).map
+    (runWorker kfReal (f22Db 120) [(f22Outsider, some 5)]).map
       (fun r => r.1.map fun o => match o with | .new p => (p.node.items.length, p.node.pl, p.node.body) | .old _ => (0, 0, 0)) =
     some [(122, 33, 4067)] := by
   decide +kernel
